@@ -271,12 +271,14 @@ HB(p, a, b) == (p.cmds[a].c = p.cmds[b].c /\ a < b) \/ p.cmds[a].ep < p.cmds[b].
 
 Dropped(p, c) == LET i == CIdx(p, c) IN i # 0 /\ p.cons[i].ph \in {"dropped", "never"}
 
-\* assignments of the received commands to written commands (equal bodies are interchangeable)
-Matchings(p) ==
-    LET n == Len(p.got) IN
-    {f \in [1..n -> 1..Len(p.cmds)] :
-        /\ \A i \in 1..n : p.cmds[f[i]].op = p.got[i]
-        /\ \A i, j \in 1..n : i # j => f[i] # f[j]}
+\* assignments of the received commands to written commands (equal bodies are interchangeable):
+\* sequences f with cmds[f[i]].op = got[i], injective; built position by position
+RECURSIVE MatchFrom(_, _, _)
+MatchFrom(p, i, used) ==
+    IF i > Len(p.got) THEN {<<>>}
+    ELSE UNION {{<<j>> \o r : r \in MatchFrom(p, i + 1, used \cup {j})} :
+                j \in {j \in 1..Len(p.cmds) : j \notin used /\ p.cmds[j].op = p.got[i]}}
+Matchings(p) == MatchFrom(p, 1, {})
 
 \* C2: conflicting commands of one consumer arrive in the order written
 OrderOK(p, f) ==
@@ -300,7 +302,9 @@ FinalOK(p, f) == \A key \in CmdKeys(p) : Stale(p, f, key) = {}
 \* empty means "nothing pending"), so the newest command(s), all empty, never reach the lane
 IsF10a(p, f) ==
     /\ "F10a" \in p.enabled /\ p.kind = "value"
-    /\ \A key \in CmdKeys(p) : \A j \in Stale(p, f, key) : p.cmds[j].op.v = ""
+    /\ \A key \in CmdKeys(p) :
+         LET st == Stale(p, f, key) IN
+         \A j \in st : p.cmds[j].op.v = "" \/ \E j2 \in st : HB(p, j, j2)
 
 CheckCommands(p) ==
     LET M == Matchings(p) IN
